@@ -714,8 +714,14 @@ def c16_scripts(ctx):
             items = first + rest
             if len(rp[0]) < len(w["head"]):
                 items = [">" + traffic.hx(p) for p in rp] + ["<" + traffic.hx(p) for p in sp]
+        extra = ["conn dump"]
+        if rng.random() < 0.3:
+            # the client half-closes (htp_connp_req_close touches the request direction only), the server goes on sending: a response
+            # direction that was in tunnel mode stays there - silent, TUNNEL - whatever the bytes look like
+            extra += ["conn reqclose"] + ["conn res " + traffic.hx(x) for x in rng.sample(
+                (b"\x00\x01server bytes\r\n", b"HTTP/1.1 200 OK\r\nContent-Length: 0\r\n\r\n", b"\r\n", b"more"), rng.randint(1, 3))]
         out.append(traffic.script(rng.choice(("respdecomp=0", "p=IDS,respdecomp=0", "respdecomp=0,autodestroy=0")), "-", items,
-                                  extra_after=["conn dump"]))
+                                  extra_after=extra))
         meta.append(w)
     return out, meta
 
